@@ -284,14 +284,31 @@ _PEELS_BLOCKS = {
 
 
 def _rank_tested_methods(ci):
+    """Methods that branch on a rank: an `if` whose test reads `.ndim`, directly or through a rank predicate of the class (a method / property without
+    branches of its own whose value is a comparison of an `.ndim`, e.g. `_is_batched`)."""
     import ast as _ast
+
+    def reads_ndim(node):
+        return any(isinstance(x, _ast.Attribute) and x.attr == "ndim" for x in _ast.walk(node))
+
+    predicates = set()
+    for name, fn in ci.methods.items():
+        has_if = any(isinstance(x, _ast.If) for x in _ast.walk(fn))
+        rets = [x for x in _ast.walk(fn) if isinstance(x, _ast.Return) and x.value is not None]
+        if not has_if and rets and all(reads_ndim(r.value) for r in rets):
+            predicates.add(name)
+
+    def tests_rank(test):
+        if reads_ndim(test):
+            return True
+        return any(isinstance(x, _ast.Attribute) and x.attr in predicates and isinstance(x.value, _ast.Name) and x.value.id in ("self", "cls") for x in _ast.walk(test))
 
     out = []
     for name, fn in ci.methods.items():
-        for node in _ast.walk(fn):
-            if isinstance(node, _ast.If) and any(isinstance(x, _ast.Attribute) and x.attr == "ndim" for x in _ast.walk(node.test)):
-                out.append(name)
-                break
+        if name in predicates:
+            continue
+        if any(isinstance(node, _ast.If) and tests_rank(node.test) for node in _ast.walk(fn)):
+            out.append(name)
     return sorted(out)
 
 
@@ -376,3 +393,6 @@ def run(chk, S: Session):
     borrow(chk, S, rb, "C18", lambda r, c: r == "R-C18-2" and "whole pytree" in c)
     # the Taylor coefficients of a pytree state are computed through a flat wrapper of the vector field: the wrapper must differentiate what the flat problem differentiates
     borrow(chk, S, rb, "C10", lambda r, c: r == "R-C10-1")
+    # "the same numbers as the flattened problem": a state whose leaves have different dtypes is flattened to the common dtype; the unravel closures of the
+    # three models must not cast a leaf back (rule of C20)
+    borrow(chk, S, rb, "C20", lambda r, c: r == "R-C20-4" and "from_example" in c)
